@@ -4,7 +4,7 @@ import Mltwist.Lemmas.MemViewSparse
 C32 — the memory view shows exactly the stored bytes.
 
 Model `MemView` (`Model/MemView.lean`): `memview/{line.go,view.go,commands.go,mode.go}` after the
-repairs F28, F29, F80, F81.  Vocabulary (`Lemmas/MemViewLines.lean`, `Lemmas/MemViewRender.lean`,
+repairs F28, F29, F80.  Vocabulary (`Lemmas/MemViewLines.lean`, `Lemmas/MemViewRender.lean`,
 `Spec/MemView.lean`):
 
 * `NormalR bl`: the interval list `Blocks()` as `interval.Map` delivers it (non-empty intervals,
@@ -70,50 +70,46 @@ theorem print_rows {mem : Mem} {bl : List Range} {σ : Nat → Option UInt8} (hc
             ((((viewLines bl).map key).drop w.1).take (w.2 - w.1))) :=
   print_eq hc h c n
 
-/-- `address a`: the cursor moves to the row of the window containing `a`, or an error is reported
-and the cursor stays -/
-theorem address_cmd {bl : List Range} (h : NormalR bl) (hb : Bounded bl) (c : Nat) {a : Nat}
-    (ha : a < 2 ^ 64) :
+/-- `address a`: if `a` is stored, the cursor moves to the row one of whose stored ranges contains
+`a` — the row of the window of `a`; otherwise an error is reported and the cursor stays
+(`Spec.MemView.addrIndexStored`; `none` = the error) -/
+theorem address_cmd {bl : List Range} (h : NormalR bl) (c a : Nat) :
     cmdAddress ⟨viewLines bl, c⟩ a =
-      (Spec.MemView.addrIndex ((viewLines bl).map key) a).map fun i => ⟨viewLines bl, i⟩ :=
-  cmdAddress_eq h hb c ha
+      (Spec.MemView.addrIndexStored (decide (MemR a bl)) ((viewLines bl).map key) a).map
+        fun i => ⟨viewLines bl, i⟩ :=
+  cmdAddress_eq h c a
 
-/-- the selected row is the first (the only) one that shows the window of `a` … -/
+/-- a stored address is always found … -/
+theorem address_stored {bl : List Range} (h : NormalR bl) {a : Nat} (hm : MemR a bl) :
+    ∃ i, Spec.MemView.addrIndexStored (decide (MemR a bl)) ((viewLines bl).map key) a = some i :=
+  addrIndexStored_some h hm
+
+/-- … the selected row is the first (the only) one that shows the window of `a` … -/
 theorem address_found {rows : List (Option Nat)} {a i : Nat}
     (h : Spec.MemView.addrIndex rows a = some i) :
     rows[i]? = some (some (Spec.MemView.windowOf a)) ∧
       ∀ j, j < i → rows[j]? ≠ some (some (Spec.MemView.windowOf a)) :=
   addrIndex_some h
 
-/-- … and an error means that no row shows it, i.e. no byte of the window of `a` is stored -/
-theorem address_error {bl : List Range} (h : NormalR bl) {a : Nat}
+/-- … and an address that is not stored is answered with the error -/
+theorem address_absent {bl : List Range} (h : NormalR bl) (c : Nat) {a : Nat} (hm : ¬ MemR a bl) :
+    cmdAddress ⟨viewLines bl, c⟩ a = none := by
+  rw [address_cmd h c a]
+  simp [Spec.MemView.addrIndexStored, hm]
+
+/-- Observation F81 (NOT the code, not demanded by the check): a command searching by window
+(`cmdAddressWindow`) would select the row of the window of `a` also for an absent byte inside a
+shown window, and report an error exactly when no byte of that window is stored -/
+theorem address_window_observation {bl : List Range} (h : NormalR bl) (hb : Bounded bl) (c : Nat)
+    {a : Nat} (ha : a < 2 ^ 64) :
+    cmdAddressWindow ⟨viewLines bl, c⟩ a =
+      (Spec.MemView.addrIndex ((viewLines bl).map key) a).map fun i => ⟨viewLines bl, i⟩ :=
+  cmdAddressWindow_eq h hb c ha
+
+theorem address_window_error {bl : List Range} (h : NormalR bl) {a : Nat}
     (he : Spec.MemView.addrIndex ((viewLines bl).map key) a = none) :
-    ¬ ∃ x, MemR x bl ∧ Spec.MemView.windowOf a ≤ x ∧ x < Spec.MemView.windowOf a + 16 := by
-  intro hx
-  have hnot := addrIndex_none he
-  rw [rows_layout h] at hnot
-  have hw : Spec.MemView.windowOf a ∈ (rowsOf bl).map (·.addr) :=
-    (rowsOf_mem h _).mpr ⟨by unfold Spec.MemView.windowOf; omega, hx⟩
-  apply hnot
-  -- a window of the list occurs in its layout
-  have : ∀ (ws : List Nat) (p w : Nat), w ∈ ws → some w ∈ Spec.MemView.layoutFrom p ws := by
-    intro ws
-    induction ws with
-    | nil => intro p w hw; cases hw
-    | cons x ws ih =>
-      intro p w hw
-      simp only [Spec.MemView.layoutFrom, List.mem_append, List.mem_cons]
-      rcases List.mem_cons.mp hw with rfl | hw
-      · exact Or.inr (Or.inl rfl)
-      · exact Or.inr (Or.inr (ih x w hw))
-  cases hrows : (rowsOf bl).map (·.addr) with
-  | nil => rw [hrows] at hw; cases hw
-  | cons x ws =>
-    rw [hrows] at hw
-    simp only [Spec.MemView.layout, List.mem_append, List.mem_cons]
-    rcases List.mem_cons.mp hw with rfl | hw
-    · exact Or.inr (Or.inl rfl)
-    · exact Or.inr (Or.inr (Or.inl (this ws x _ hw)))
+    ¬ ∃ x, MemR x bl ∧ Spec.MemView.windowOf a ≤ x ∧ x < Spec.MemView.windowOf a + 16 :=
+  addrIndex_none_window h he
 
 /-- cursor commands: inside the rows, or an error that leaves the cursor alone; no panic -/
 theorem cursor_cmds (v : View) (x : Int) :
@@ -164,11 +160,12 @@ example : (memoryLines [(4, 6), (9, 12), (40, 70)]).map (·.map key) =
     some [some 0, none, some 32, some 48, some 64, none] := by
   decide
 
-/-- F81: address 16 lies in the row of window 16 although only bytes 20, 21 are stored; the pinned
-search does not find it -/
-example : findLine 16 [Line.empty, ⟨16, [(20, 22)]⟩, Line.empty] = some 1 ∧
-    findLinePinned 16 [Line.empty, ⟨16, [(20, 22)]⟩, Line.empty] = none ∧
-    findLine 32 [Line.empty, ⟨16, [(20, 22)]⟩, Line.empty] = none := by
+/-- `address 20` finds the row of window 16; address 16 lies in that window but is not stored: error
+(observation F81: a search by window would select the row) -/
+example : findLine 20 [Line.empty, ⟨16, [(20, 22)]⟩, Line.empty] = some 1 ∧
+    findLine 16 [Line.empty, ⟨16, [(20, 22)]⟩, Line.empty] = none ∧
+    findLineWindow 16 [Line.empty, ⟨16, [(20, 22)]⟩, Line.empty] = some 1 ∧
+    findLineWindow 32 [Line.empty, ⟨16, [(20, 22)]⟩, Line.empty] = none := by
   decide
 
 example : NormalR [(4, 6), (9, 12), (40, 70)] ∧ Bounded [(4, 6), (9, 12), (40, 70)] := by
